@@ -64,6 +64,9 @@ def walk_local(node, include_root=True) -> Iterator[ast.AST]:
 def body_walk(fn) -> Iterator[ast.AST]:
     """All nodes of a function's own body (not nested defs' bodies)"""
     for stmt in fn.body:
+        if isinstance(stmt, SCOPE_TYPES):
+            yield stmt  # the definition statement itself, not its body
+            continue
         yield from walk_local(stmt)
 
 
